@@ -80,7 +80,9 @@ def judge(contract, inputs):
     in_pre = True
     if contract.requires is not None:
         try:
-            in_pre = bool(contract.requires(*[spec_arg(a) for a in raw]))
+            import inspect
+            nreq = len(inspect.signature(contract.requires).parameters)
+            in_pre = bool(contract.requires(*[spec_arg(a) for a in raw][:nreq]))
         except BaseException:
             in_pre = False
     r = norm_result(outcome(real, [real_arg(a) for a in raw]))
@@ -126,7 +128,64 @@ def alphabet_for(contract, seed_inputs):
     return out
 
 
+def url_corpus():
+    """stored-part tuples of structurally interesting URLs (every authority shape x ports at
+    and around the defaults x path/query/fragment shapes)"""
+    out = []
+    for sch in ("", "http", "https", "x"):
+        for ui in ("", "u@", "u:p@", ":p@", ":@", "u:@", "%41:b%20@"):
+            for host in ("h", "[::1]", "h.", "", "xn--bcher-kva.de", "1.2.3.4"):
+                for port in ("", ":80", ":0", ":443", ":8080", ":65535"):
+                    netloc = ui + host + port
+                    for path in ("", "/", "/a/b", "a", "/a%20b/c.txt", "/a/"):
+                        for q in ("", "q=1"):
+                            for f in ("", "f"):
+                                if netloc and path and not path.startswith("/"):
+                                    continue
+                                out.append({"__url__": dict(scheme=sch, netloc=netloc, path=path, query=q, fragment=f)})
+    return out
+
+
+def search_with_urls(contract, seed_inputs, budget, seed):
+    import random as _r
+    rnd = _r.Random(seed)
+    names = [n for n, _ in contract.params]
+    corpus = url_corpus()
+    rnd.shuffle(corpus)
+    scalars = {
+        "int": [None, 0, 80, 443, 21, 8080, 65535, 65536, -1, True, False],
+        "str": ["", "x", "a b", "é", "%41", "/", ":", "@", "a/b", ".", "..", "x.y", "\ud800"],
+    }
+    tried = 0
+    for u in corpus:
+        alts = []
+        for n in names:
+            v = seed_inputs.get(n)
+            if isinstance(v, dict) and "__url__" in v:
+                alts.append([u])
+            elif isinstance(v, bool) or isinstance(v, int) or v is None:
+                alts.append([v] + scalars["int"])
+            elif isinstance(v, str):
+                alts.append([v] + scalars["str"])
+            else:
+                alts.append([v])
+        for combo in itertools.product(*alts):
+            cand = dict(zip(names, combo))
+            tried += 1
+            try:
+                j = judge(contract, cand)
+            except Exception:
+                continue
+            if j["in_pre"] and not j["agrees"]:
+                return cand, j, tried
+            if tried > budget:
+                return None, None, tried
+    return None, None, tried
+
+
 def search(contract, seed_inputs, budget=60000, seed=0):
+    if any(isinstance(v, dict) and "__url__" in v for v in seed_inputs.values()):
+        return search_with_urls(contract, seed_inputs, budget, seed)
     """Fallback when the solver's model does not reproduce natively (library functions are
     over-approximated in the VCs): enumerate small inputs around the model and look for a
     genuine disagreement between the real function and its specification."""
